@@ -5,6 +5,8 @@ Check C19_lookup_sound : forall cs c i, lookup cs c = Some i -> nth i cs 0 = c /
 Check C19_lookup_complete : forall cs i, NoDup cs -> (i < length cs)%nat -> lookup cs (nth i cs 0) = Some i.
 Check C19_lookup_none : forall cs c, lookup cs c = None <-> ~ In c cs.
 Check C19_hashed_codes_contiguous : forall d v vs i, no_explicit vs -> (i < S (length vs))%nat -> nth i (codes (with_start d (v :: vs))) 0 = d + N.of_nat i.
+Check C19_hashed_lookup_inverse : forall d v vs i, no_explicit vs -> (i < S (length vs))%nat -> lookup (codes (with_start d (v :: vs))) (d + N.of_nat i) = Some i.
+Check C19_contiguous_codes_distinct : forall vs next, no_explicit vs -> NoDup (codes_from next vs).
 Check C19_one_code_per_variant : forall vs next, length (codes_from next vs) = length vs.
 Check C19_hash_start_smallest : forall name fuel n0 d n, hash_start_loop fuel name n0 = Some (d, n) -> HASH_MIN <= d /\ d = hash_value name n /\ n0 <= n /\ forall k, n0 <= k < n -> hash_value name k < HASH_MIN.
 Check C19_hash_value_is_u32 : forall name nonce, hash_value name nonce < 4294967296.
